@@ -138,6 +138,17 @@ def run(ctx):
                       '%sBufferOffset = %s + len of parameters %s (the buffers that precede it in the payload)' % (name, bval, prefix), sh.body.where(),
                       'authenticate_message: %sBufferOffset = %s + lengths of parameters %s, but the payload places parameters %s before this buffer'
                       % (name, consts[:1], lp, prefix))
+            # the running sum of the preceding lengths is formed in at least 32 bits: no term is narrowed to 16 bits before it is added
+            narrow = False
+            for n in walk(e):
+                if n[0] == 'bin' and n[1].replace('WithOverflow', '') == 'Add':
+                    for side in (n[2], n[3]):
+                        sd = strip(side)
+                        if sd[0] == 'cast' and re.match(r'^[ui](8|16)$', sd[2] or ''):
+                            narrow = True
+            ctx.check(not narrow, 'R15.1', 'off:%s:width:%s' % (name, with_version), '%sBufferOffset adds the preceding lengths in 32 (or more) bits' % name, sh.body.where(),
+                      'authenticate_message sums 16-bit lengths for %sBufferOffset: when the preceding buffers exceed 65535 bytes together (each still fitting its own '
+                      '16-bit length) the offset wraps (release) or the client panics (debug)' % name)
             prefix = prefix + [prm]
         # payload concatenation order
         v = resolve(st, strip(st.env.get(0)))
@@ -260,6 +271,23 @@ def run(ctx):
                   cv.where(), 'compute_response_v2 no longer derives the session base key as HMAC(response_key_nt, nt_proof_str)')
         break
 
+    # ---- R15.7 the text encoding of the names follows *this* challenge: is_unicode is (re)assigned from the flag test on every accepted challenge ----
+    rc = ctx.body('<nla::ntlm::Ntlm as nla::sspi::AuthenticationProtocol>::read_challenge_message')
+    n_okc = 0
+    for path, st in feasible_paths(rc, P, limit=200000):
+        if ret_kind(strip(st.env.get(0))) != 'ok':
+            continue
+        n_okc += 1
+        stores = [ev for ev in st.events if ev[0] == 'store' and ev[2]['p'] and ev[2]['p'][-1].get('name') == 'is_unicode']
+        good = len(stores) == 1
+        if good:
+            e = fold(resolve(st, stores[0][3]))
+            good = e[0] == 'bin' and e[1] in ('Eq', 'Ne') and any(n[0] == 'bin' and n[1] == 'BitAnd' for n in walk(e)) \
+                and any('"NegotiateFlags"' in str(c[2]) for c in consts_in(e) if isinstance(c[2], str))
+        ctx.check(good, 'R15.7', 'challenge:is_unicode', 'every accepted challenge stores is_unicode = (NegotiateFlags & NTLMSSP_NEGOTIATE_UNICODE) test of that challenge', rc.where(),
+                  'read_challenge_message does not assign is_unicode from the flags of the challenge it is answering on every accepted path (%d store(s)): a context reused for a '
+                  'second handshake, or a challenge without the UNICODE bit, gets names in the wrong encoding' % len(stores))
+    ctx.floor('R15.7', 'accepting paths of read_challenge_message', n_okc, 1)
     # ---- R15.5 / R15.6 rules shared with C04 (UTF-16 encoders) and C16 (RC4 output step), evaluated on the same facts -------------------
     import c04
     import c16
